@@ -31,6 +31,9 @@ C_FUNCS = [
     ("trees.c", "tsk_tree_get_parent"), ("trees.c", "tsk_tree_get_branch_length_unsafe"), ("trees.c", "tsk_tree_get_branch_length"),
     ("trees.c", "tsk_tree_get_depth_unsafe"), ("trees.c", "tsk_tree_get_depth"), ("trees.c", "tsk_tree_is_descendant"),
     ("trees.c", "tsk_tree_get_mrca"), ("trees.c", "tsk_tree_get_num_tracked_samples"),
+    # row getters of the tree sequence: accepted iff 0 <= index < number of rows
+    ("trees.c", "tsk_treeseq_get_node"), ("trees.c", "tsk_treeseq_get_edge"), ("trees.c", "tsk_treeseq_get_migration"),
+    ("trees.c", "tsk_treeseq_get_mutation"), ("trees.c", "tsk_treeseq_get_population"), ("trees.c", "tsk_treeseq_get_provenance"),
     ("trees.c", "tsk_tree_seek"),
     ("trees.c", "tsk_tree_seek_index"),
     ("tables.c", "tsk_table_collection_check_tree_integrity"),
@@ -41,7 +44,7 @@ C_FUNCS = [
 ] + [("tables.c", "tsk_%s_table_%s" % (t, f)) for t in ("edge", "site", "mutation", "migration", "individual", "population", "provenance")
      for f in ("get_row", "get_row_unsafe", "equals")] + [("tables.c", "tsk_node_table_equals")]
 BOUNDED = [{"name": "adversarial_api_calls", "module": "standins.c09_adversarial", "timeout": 2400, "asan": True}]
-UNVERIFIED = ["python/_tskitmodule.c (CPython API; exercised only by the bounded stand-in)", "tsk_ibd_finder_add_sample_ancestry (assumed contract)",
+UNVERIFIED = ["python/_tskitmodule.c (CPython API; exercised only by the bounded stand-in)", "tsk_treeseq_get_site / _get_individual (arrays of pointers)", "tsk_ibd_finder_add_sample_ancestry (assumed contract)",
               "ancestor_mapper_add_ancestry (assumed contract)", "allocation-failure paths beyond NULL checks"]
 LEMMAS = ["lemmas.induction:psum_monotone"]
 ASSUMPTIONS = [
